@@ -33,8 +33,13 @@ pub fn check_bytes(bytes: &[u8]) -> Result<bool, String> {
 /// The same oracle when the byte string is served by a source returning short and interrupted
 /// reads (acceptance depends on the bytes, not on how they are served).
 pub fn check_bytes_short(bytes: &[u8]) -> Result<bool, String> {
+    check_bytes_policy(bytes, vlib::sio::Policy::InterruptThenOne)?;
+    check_bytes_policy(bytes, vlib::sio::Policy::Alternate)
+}
+
+fn check_bytes_policy(bytes: &[u8], policy: vlib::sio::Policy) -> Result<bool, String> {
     let want = parse_trailer(bytes);
-    let ctl = vlib::sio::Ctl::new(vlib::sio::Policy::Alternate);
+    let ctl = vlib::sio::Ctl::new(policy);
     let got = catch_unwind(AssertUnwindSafe(|| Reader::new(vlib::sio::SFile::with_data(&ctl, bytes.to_vec())).map(|_| ())));
     match got {
         Err(p) => Err(format!("Reader::new over a short-reading source panicked: {}", panic_message(&p))),
